@@ -209,7 +209,8 @@ func c18Facts(fc *facts) {
 //                          it starts takes the queue's mutex before it calls the function taken from the queue's
 //                          channel and releases it only when that function has returned (deferred Unlock).
 // c18CompactOneQueue       every call of the compactor's Compact in dkv/db.go sits in a function handed to Enqueue
-//                          with one and the same package-level queue created by bg.NewQueue.
+//                          (directly, or through a helper of the file that forwards its queue and its function, wrapped
+//                          in a closure that calls it, to Enqueue) with one and the same package-level bg.NewQueue queue.
 // c18LevelListPersistent   LevelList.NewWithChangeSet clones the receiver's level slice, applies additions and
 //                          removals to the clone only and never assigns through the receiver; Level.tablesAdded /
 //                          tablesRemoved have value receivers and build their table set with Set.Added / Set.Diff,
@@ -355,6 +356,47 @@ func c18StructFacts(fc *facts) {
 				}
 			}
 		}
+		// helpers of the same file that forward their queue parameter and their function parameter (wrapped in a closure
+		// that calls it, nothing started with `go`) to <x>.Enqueue count like Enqueue itself (one level)
+		forwarders := map[string]bool{}
+		for _, d := range f.Decls {
+			fd, isF := d.(*ast.FuncDecl)
+			if !isF || fd.Body == nil {
+				continue
+			}
+			ps := paramNames(fd)
+			if len(ps) != 2 {
+				continue
+			}
+			qp, fp := ps[0], ps[1]
+			enq, fnUses, fnCalledInLit, bad := 0, 0, 0, false
+			ast.Inspect(fd.Body, func(x ast.Node) bool {
+				switch n := x.(type) {
+				case *ast.GoStmt:
+					bad = true
+				case *ast.Ident:
+					if n.Name == fp {
+						fnUses++
+					}
+				case *ast.CallExpr:
+					if _, sel := lastSel(n.Fun); sel == "Enqueue" && len(n.Args) == 2 && selName(n.Args[0]) == qp {
+						if lit, isLit := n.Args[1].(*ast.FuncLit); isLit {
+							enq++
+							ast.Inspect(lit.Body, func(y ast.Node) bool {
+								if c, isC := y.(*ast.CallExpr); isC && selName(c.Fun) == fp && len(c.Args) == 0 {
+									fnCalledInLit++
+								}
+								return true
+							})
+						}
+					}
+				}
+				return true
+			})
+			if enq == 1 && fnCalledInLit == 1 && fnUses == 1 && !bad {
+				forwarders[fd.Name.Name] = true
+			}
+		}
 		used := map[string]bool{}
 		compactCalls, covered := 0, 0
 		var walk func(n ast.Node, q string)
@@ -376,7 +418,7 @@ func c18StructFacts(fc *facts) {
 						used[q] = true
 					}
 				}
-				if _, sel := lastSel(c.Fun); sel == "Enqueue" && len(c.Args) == 2 {
+				if _, sel := lastSel(c.Fun); (sel == "Enqueue" || forwarders[sel]) && len(c.Args) == 2 {
 					if id, isId := c.Args[0].(*ast.Ident); isId && queues[id.Name] {
 						if lit, isLit := c.Args[1].(*ast.FuncLit); isLit {
 							walk(lit.Body, id.Name)
@@ -389,7 +431,7 @@ func c18StructFacts(fc *facts) {
 		}
 		walk(f, "")
 		ok := compactCalls >= 1 && covered == compactCalls && len(used) == 1
-		fc.set("c18CompactOneQueue", 1, ok, "dkv/db.go: every compactor.Compact call inside a function given to Enqueue with one package-level bg.NewQueue queue")
+		fc.set("c18CompactOneQueue", 1, ok, "dkv/db.go: every compactor.Compact call inside a function given to Enqueue (directly or through a helper that forwards queue and function to Enqueue) with one package-level bg.NewQueue queue")
 	}
 
 	// --- c18LevelListPersistent
